@@ -361,4 +361,159 @@ def c08(report, rng, tier, findings):
         "CPython runs a generator's finally block at close()/finalisation; the position of that step is universally quantified"]
 
 
-HANDLERS = {'C20': c20, 'C08': c08}
+# ------------------------------------------------------------------------------------------- C14
+
+def c14_gen(rng, cid, tier):
+    n_cls = rng.randint(1, 5)
+    classes = []
+    for c in range(n_cls):
+        parent = rng.choice([None] + list(range(c))) if c > 0 else None
+        decorated = True if parent is None else rng.random() < 0.5
+        style = rng.choice(('dataclass', 'dataclass', 'handwritten'))
+        classes.append((c, parent, decorated, style))
+    ops = []
+    n_ops = rng.randint(3, 10 if tier == 'quick' else 18)
+    for _ in range(n_ops):
+        r = rng.random()
+        c = rng.randrange(n_cls)
+        if r < 0.4:
+            ops.append(('c', c, rng.choice(('pos', 'kw', 'default'))))
+        elif r < 0.55:
+            ops.append(('s', c, rng.choice(('kw', 'default'))))
+        elif r < 0.68:
+            ops.append(('inf', c, rng.randint(0, 2)))
+        elif r < 0.75:
+            ops.append(('clr',))
+        else:
+            ops.append(('q', c))
+    ops.append(('q', rng.randrange(n_cls)))
+    return {'id': cid, 'classes': classes, 'ops': ops}
+
+
+def c14_sexp(case):
+    cl = tuple((c, '-' if p is None else p) for c, p, _, _ in case['classes'])
+    ops = []
+    for op in case['ops']:
+        if op[0] == 'c':
+            ops.append(('c', op[1]))
+        elif op[0] == 's':
+            ops.append(('s', op[1]))
+        elif op[0] == 'inf':
+            ops += [('c', op[1])] * op[2]
+        else:
+            ops.append(op)
+    return sexp(('reg', case['id'], ('classes',) + cl, ('ops',) + tuple(ops)))
+
+
+def c14_impl(case):
+    from dataclasses import dataclass
+    from . import impl
+    from entity_query_language import symbol, let, an, entity, symbolic_mode, rule_mode, infer
+    from entity_query_language.symbolic import Variable, SymbolicExpression
+    impl.reset_library_state()
+    counter = {'inits': 0}
+    built = {}
+    for c, parent, decorated, style in case['classes']:
+        base = built[parent] if parent is not None else object
+        if style == 'handwritten':
+            def __init__(self, a=0, _base=base):
+                counter['inits'] += 1
+                self.a = a
+            cls = type(f'K{c}', (base,), {'__init__': __init__})
+        else:
+            def __post_init__(self):
+                counter['inits'] += 1
+            cls = dataclass(eq=False)(type(f'K{c}', (base,), {'__annotations__': {'a': int}, 'a': 0,
+                                                             '__post_init__': __post_init__}))
+        if decorated:
+            cls = symbol(cls)
+        built[c] = cls
+
+    @symbol
+    @dataclass(eq=False)
+    class Helper:
+        v: int = 0
+    helpers = [Helper(0), Helper(1)]
+    ids = {}            # id(obj) -> construction number
+    keep = []
+    outs = []
+    n = 0
+    try:
+        for op in case['ops']:
+            k = op[0]
+            if k == 'c':
+                cls = built[op[1]]
+                o = cls(3) if op[2] == 'pos' else (cls(a=3) if op[2] == 'kw' else cls())
+                assert type(o) is cls
+                ids[id(o)] = n
+                keep.append(o)
+                n += 1
+            elif k == 's':
+                before = counter['inits']
+                with symbolic_mode():
+                    e = built[op[1]](a=3) if op[2] == 'kw' else built[op[1]]()
+                if isinstance(e, built[op[1]]) or counter['inits'] != before:
+                    outs.append('SYMBOLIC-CONSTRUCTION-NOT-INERT')
+            elif k == 'inf':
+                src = let(Helper, helpers[:op[2]])
+                with rule_mode():
+                    q = infer(entity(built[op[1]](a=src.v), src.v >= 0))
+                made = list(q.evaluate())
+                for o in made:
+                    ids[id(o)] = n
+                    keep.append(o)
+                    n += 1
+                if len(made) != op[2]:
+                    outs.append(f'INFER-COUNT-{len(made)}')
+            elif k == 'clr':
+                for c in list(Variable._cache_.values()):
+                    c.clear()
+                Variable._cache_.clear()
+            elif k == 'q':
+                res = list(an(entity(let(built[op[1]]))).evaluate())
+                outs.append(','.join(str(x) for x in sorted(ids.get(id(o), -1) for o in res)))
+    except Exception as e:
+        outs.append(f'EXC:{type(e).__name__}:{e}')
+    finally:
+        impl.reset_library_state()
+    return outs, counter['inits']
+
+
+def c14(report, rng, tier, findings):
+    n = n_cases(tier, 300, 4000)
+    cases = [c14_gen(rng, f'r{i}', tier) for i in range(n)]
+    impl_res = pmap(c14_impl, cases)
+    lines = run_driver([c14_sexp(c) for c in cases])
+    report.rule = ("random hierarchies of 1-5 classes (decorated roots, decorated and undecorated subclasses, dataclasses and a "
+                   "hand-written __init__) and histories of 3-10 (thorough 18) operations: concrete construction by position / keyword / "
+                   "default, symbolic construction, rule inference creating 0-2 instances, registry clearing and no-domain queries "
+                   "(declare-and-evaluate); every query answer is compared BY IDENTITY with the harness's own construction log through "
+                   "the model, and the number of __init__ runs is compared; non-trivial = the history queries a class after at "
+                   "least one concrete construction of it or of a subclass")
+    for case, (outs, inits), line in zip(cases, impl_res, lines):
+        report.evaluations += 1
+        if line.startswith('ERR'):
+            raise HarnessError('driver: ' + line + ' :: ' + c14_sexp(case))
+        _, body, m_inits = line.split('\t')
+        model = body.split('|') if body else []
+        if len(model) == 1 and model[0] == '' and sum(1 for o in case['ops'] if o[0] == 'q') == 1:
+            model = ['']
+        for op in case['ops']:
+            report.count('op_' + op[0])
+        if any(x for x in model):
+            report.nontrivial.add(c14_sexp({**case, 'id': 'x'}))
+        report.add_sample(c14_sexp(case))
+        report.traces += len(outs)
+        nq = sum(1 for o in case['ops'] if o[0] == 'q')
+        model = (body.split('|') + [''] * nq)[:nq] if nq else []
+        if outs != model or str(inits) != m_inits:
+            what = (f'no-domain queries returned {outs} (instances numbered by construction order), the registry log says '
+                    f'{model}; __init__ ran {inits} times, concrete constructions: {m_inits}')
+            report.violations.append((what, {'what': what, 'case': case, 'case_sexp': c14_sexp(case),
+                                             'observed': outs, 'expected': model}))
+    return ['EqlModel.Props.C14'], [
+        "declare-and-evaluate atomically (the property's observe_at); stale readings are not part of the verdict",
+        "every construction style reaches the same patched __new__ (checked by the correspondence over styles)"]
+
+
+HANDLERS = {'C20': c20, 'C08': c08, 'C14': c14}
